@@ -262,6 +262,11 @@ def classify(check, h, hdir):
     m = re.match(r"\[(C\d+)\]", d)
     if cat == "cover":
         return (m.group(1) if m else None, "cover")
+    if d.startswith("same object violation"):
+        # CBMC's C rule for relational operators on pointers into different objects. Rust defines
+        # the comparison of raw pointers by address (the repository compares metadata ranges that
+        # way): not undefined behaviour, not reported.
+        return (None, "ignored")
     if m:
         return (m.group(1), "tagged")
     if cat == "unwind" or "unwinding assertion" in d:
@@ -525,7 +530,7 @@ def main():
     if not args.no_evidence and not args.only:
         write_evidence(prop, args.tier, seed, results, violations, problems, wall, watch.peak_kb, timeout_s)
     nh = len(results)
-    ok = sum(1 for r in results if r["status"] == "Success" and not r["problems"])
+    ok = sum(1 for r in results if not r["problems"] and not r["violating"] and r["checks_total"] > 0)
     log(f"[{prop}] tier={args.tier} harness-runs={nh} clean={ok} violations={sum(1 for v in violations)} "
         f"inconclusive={len(problems)} wall={wall:.0f}s -> exit {status}")
     sys.exit(status)
@@ -566,6 +571,8 @@ def analyse(r, h, geom, hdir, prop, findings, stats):
             # Kani reports UNDETERMINED for checks behind a failed unwinding assertion etc.
             continue
         # FAILURE
+        if kind == "ignored":
+            continue
         if kind in ("harness", "internal"):
             rec["problems"].append(f"failure inside the harness/tooling, not the code under test: {c['description']} "
                                    f"@ {c.get('function')} ({(c.get('location') or {}).get('file')}:{(c.get('location') or {}).get('line')})")
@@ -640,7 +647,7 @@ def write_evidence(prop, tier, seed, results, violations, problems, wall, peak_k
     ok_reach = sum(r["checks_reachable_ok"] for r in results)
     tagged = sum(r["tagged_ok"] for r in results)
     covers = sum(len(r["covers_ok"]) for r in results)
-    clean = [r for r in results if r["status"] == "Success" and not r["problems"]]
+    clean = [r for r in results if not r["problems"] and not r["violating"] and not r["known"] and r["checks_total"] > 0]
     solver_s = sum((r["stats"] or {}).get("runtime_solver_s", 0) or 0 for r in results)
     symex_s = sum((r["stats"] or {}).get("runtime_symex_s", 0) or 0 for r in results)
     vccs = sum((r["stats"] or {}).get("vccs_generated", 0) or 0 for r in results)
